@@ -100,3 +100,25 @@ pub fn request(t: &ohkami::testing::TestingOhkami, method: &str, path: &str) -> 
     let (status, body) = rt().block_on(async { let res = t.oneshot(req).await; (res.status().code(), res.text().map(|s| s.to_string())) });
     (status, body, LOG.lock().unwrap().clone())
 }
+
+/// one request given as raw bytes of the request line target, through the real parser, router and serializer (hooks H2): the wire bytes
+pub fn wire(t: &ohkami::testing::TestingOhkami, method: &str, target: &[u8], headers: &[(Vec<u8>, Vec<u8>)], body: &[u8]) -> Result<Vec<u8>, String> {
+    let mut raw = Vec::new();
+    raw.extend_from_slice(method.as_bytes()); raw.push(b' '); raw.extend_from_slice(target); raw.extend_from_slice(b" HTTP/1.1\r\n");
+    for (k, v) in headers { raw.extend_from_slice(k); raw.extend_from_slice(b": "); raw.extend_from_slice(v); raw.extend_from_slice(b"\r\n"); }
+    if !body.is_empty() { raw.extend_from_slice(format!("Content-Length: {}\r\n", body.len()).as_bytes()); }
+    raw.extend_from_slice(b"\r\n"); raw.extend_from_slice(body);
+    rt().block_on(async {
+        let mut req = Request::__verif_init();
+        let mut req = std::pin::Pin::new(&mut req);
+        let mut conn = Script::new(vec![raw], true);
+        let res = match req.as_mut().__verif_read(&mut conn).await {
+            Ok(Some(())) => t.__verif_handle(req.get_mut()).await,
+            Ok(None) => return Err("closed".to_string()),
+            Err(res) => res,
+        };
+        let mut wire: Vec<u8> = Vec::new();
+        res.__verif_send(&mut wire).await;
+        Ok(wire)
+    })
+}
